@@ -18,7 +18,10 @@ from vlib import native
 RT_FILES = ["map.go", "alg.go", "hash64.go", "z_map.go", "type.go", "errors.go", "stubs.go", "z_face.go", "z_type.go",
             "mbarrier.go", "z_error.go", "z_string.go", "utf8.go", "z_slice.go"]
 KINDS = {  # name -> (reflexive, needKeyUpdate, hashMightPanic)   (ssa/abi/map.go MapTypeFlags for these key types)
-    "int": (1, 0, 0), "str": (1, 1, 0), "f64": (0, 1, 0), "any": (0, 1, 1), "arr": (1, 0, 0), "stc": (1, 1, 0), "big": (1, 0, 0)}
+    "int": (1, 0, 0), "str": (1, 1, 0), "f64": (0, 1, 0), "any": (0, 1, 1), "arr": (1, 0, 0), "stc": (1, 1, 0), "big": (1, 0, 0),
+    # complex keys (== on complex: (x,+0) and (x,-0) are ONE key, a NaN part makes the key equal to nothing), a struct with
+    # a complex field, and structs with tail / interior padding whose padding bytes are dirtied by the harness
+    "c128": (0, 1, 0), "c64": (0, 1, 0), "cst": (0, 1, 0), "pad": (1, 0, 0), "ipd": (1, 0, 0)}
 KNOWN_CLEAR = "mapclear:memclr-noop-stale-buckets"
 KNOWN_NAN = "mapiter:nan-entry-of-retired-buckets-after-clear"
 KNOWN_BIG = "abitype:indirect-key-elem-slot-size"
@@ -27,7 +30,7 @@ KNOWN_BIG = "abitype:indirect-key-elem-slot-size"
 class Key:
     __slots__ = ("tok", "cls", "repr", "refl", "unh", "nank")
 
-    def __init__(self, tok, cls, rep, refl=True, unh=False, nank=0):
+    def __init__(self, tok, cls, rep, refl=True, unh=False, nank="-"):
         self.tok, self.cls, self.repr, self.refl, self.unh, self.nank = tok, cls, rep, refl, unh, nank
 
 
@@ -36,6 +39,50 @@ def f64bits(x):
 
 
 NANS = [0x7ff8000000000001, 0x7ff8000000000000, 0xfff8000000000000, 0x7ff0000000000001]
+
+
+S64 = [0, 1 << 63, 0x7ff8000000000001, 0x7ff0000000000000, 0xfff0000000000000, 0x3ff0000000000000, 0xbff0000000000000]
+S32 = [0, 1 << 31, 0x7fc00001, 0x7f800000, 0xff800000, 0x3f800000, 0xbf800000]
+
+
+def _fpart(bits, w):
+    """(part spec for the model driver, canonical value) of one float component of width w bytes"""
+    if w == 8:
+        nan = (bits >> 52) & 0x7ff == 0x7ff and bits & ((1 << 52) - 1) != 0
+        zero = bits in (0, 1 << 63)
+    else:
+        nan = (bits >> 23) & 0xff == 0xff and bits & ((1 << 23) - 1) != 0
+        zero = bits in (0, 1 << 31)
+    if nan:
+        return "n", None
+    if zero:
+        return "z", 0
+    return "v%x" % bits, bits
+
+
+def classify(kind, tok):
+    """(canonical form under Go's ==, reflexive, unhashable, NaN hashing spec) of a key token"""
+    t, body = tok[0], tok[2:]
+    box = "A" if kind == "any" else ""
+    if t in "SFMU":
+        return (t,), True, True, "-"
+    if t == "f":
+        p, c = _fpart(int(body, 16), 8)
+        return (("f", c), True, False, "-") if c is not None else (None, False, False, "8%s:n" % box)
+    if t in "cd":
+        w = 8 if t == "c" else 4
+        re, im = (int(x, 16) for x in body.split(","))
+        (p1, c1), (p2, c2) = _fpart(re, w), _fpart(im, w)
+        if c1 is None or c2 is None:
+            return None, False, False, "%d%s:%s/%s" % (w, box, p1, p2)
+        return (t, c1, c2), True, False, "-"
+    if t == "C":
+        re, im, b = body.split(",")
+        (p1, c1), (p2, c2) = _fpart(int(re, 16), 8), _fpart(int(im, 16), 8)
+        if c1 is None or c2 is None:
+            return None, False, False, "8:%s/%s/u%x" % (p1, p2, int(b) & 0xffffffff)
+        return ("C", c1, c2, int(b)), True, False, "-"
+    return tok, True, False, "-"
 
 
 def universe(rng, kind, n):
@@ -112,13 +159,35 @@ def universe(rng, kind, n):
         for i in range(m):
             toks.append(("a:%d,%d" % (vs[i], i), ("a", vs[i], i), True, False, 0))
             toks.append(("T:%d,%s" % (i, hx(b"t%d" % i)), ("T", i), True, False, 0))
+    elif kind in ("c128", "c64"):
+        t, S, w = ("c", S64, 16) if kind == "c128" else ("d", S32, 8)
+        toks = [("%s:%x,%x" % (t, a, b),) for a in S for b in S]
+        while len(toks) < n:
+            a = f64bits(float(rng.randint(-300, 3000)) / rng.choice([1, 2, 4])) if kind == "c128" else \
+                struct.unpack("<I", struct.pack("<f", float(rng.randint(-300, 3000)) / rng.choice([1, 2, 4])))[0]
+            toks.append(("%s:%x,%x" % (t, a, rng.choice(S)),) if rng.random() < 0.7 else ("%s:%x,%x" % (t, rng.choice(S), a),))
+    elif kind == "cst":
+        toks = [("C:%x,%x,%d" % (a, b, c),) for a in S64 for b in S64[:5] for c in (0, 7)]
+        while len(toks) < n:
+            toks.append(("C:%x,%x,%d" % (f64bits(float(rng.randint(-50, 500))), rng.choice(S64), rng.randint(-3, 3)),))
+    elif kind == "pad":
+        toks = [("P:%d,%d,%d" % (v, rng.choice([0, 1, v]), rng.randint(-128, 127)),) for v in ints(n)]
+    elif kind == "ipd":
+        toks = [("Q:%d,%d" % (rng.randint(-128, 127), v),) for v in ints(n)]
+    if kind == "any":
+        # complex and padded-struct dynamic types inside the interface
+        extra = ["c:%x,%x" % (a, b) for a in S64[:4] for b in S64[:4]] + ["d:%x,%x" % (a, b) for a in S32[:3] for b in S32[:3]]
+        extra += ["P:%d,%d,%d" % (i, i % 3, i % 5) for i in range(12)] + ["Q:%d,%d" % (i % 7, i) for i in range(8)]
+        toks = toks[:40] + [(x,) for x in extra] + toks[40:]
     seen, cls, out = set(), {}, []
-    for (t, canon, refl, unh, nk) in toks:
+    for tup in toks:
+        t = tup[0]
         if t in seen:
             continue
         seen.add(t)
+        canon, refl, unh, spec = classify(kind, t)
         c = cls.setdefault(canon if refl else ("nan", t), len(cls))
-        out.append(Key(t, c, len(out), refl, unh, nk))
+        out.append(Key(t, c, len(out), refl, unh, spec))
     return out
 
 
@@ -131,6 +200,11 @@ def gen_history(rng, kind, nops, with_clear, profile=None):
     uni = universe(rng, kind, max(40, min(int(target * 2.2) + 30, 6000)))
     hashable = [k for k in uni if not k.unh]
     special = [k for k in uni if k.unh or not k.refl]
+    bycls = {}
+    for x in uni:
+        if x.refl and not x.unh:
+            bycls.setdefault(x.cls, []).append(x)
+    special += [x for xs in bycls.values() if len(xs) > 1 for x in xs][:60]      # ±0 variants of one key
     ops = []
     if rng.random() < 0.5:   # nil-map segment
         ops.append(("nil", None, None, None))
@@ -194,7 +268,7 @@ def gen_history(rng, kind, nops, with_clear, profile=None):
             k = pick_present()
             if k is not None:
                 # update, possibly through an equal-but-not-identical key (+0/-0)
-                alts = [x for x in uni[:40] if x.cls == k.cls and x.refl]
+                alts = bycls.get(k.cls, [])
                 do_set(rng.choice(alts) if alts and rng.random() < 0.5 else k)
         elif r < w_new + w_del + 0.16:
             k = pick_present() if rng.random() < 0.6 else rng.choice(uni)
@@ -380,7 +454,7 @@ def parse_real(ln):
 
 def model_lines_of(hist, real_ans, pre):
     kind = hist["kind"]
-    out = ["kind %d %d %d" % KINDS[kind]]
+    out = ["kind %d %d %d" % KINDS[kind], "hashkey %d" % hist["hashkey"][0]]
     if hist["rand"]:
         out.append("rand " + " ".join(str(x) for x in hist["rand"]))
     mpre = len(out)
@@ -394,7 +468,7 @@ def model_lines_of(hist, real_ans, pre):
                     unh = 1
                 elif hh not in ("nan", "-"):
                     h = hh
-            ks = "%d,%d,%d,%d,%d,%s" % (k.cls, k.repr, 1 if k.refl else 0, unh, k.nank, h)
+            ks = "%d,%d,%d,%d,%s,%s" % (k.cls, k.repr, 1 if k.refl else 0, unh, k.nank, h)
         if name == "set":
             out.append("set %s %d" % (ks, v))
         elif name in ("get", "get1", "del"):
@@ -534,22 +608,14 @@ def hist_json(hist, upto=None):
 
 
 def load_hist(obj):
-    """history from a corpus / replay JSON (keys classified by the universe rules of their token)"""
+    """history from a corpus / replay JSON (keys classified by the rules of their token)"""
     cls, ops, reps = {}, [], {}
     for (n, tok, v, s) in obj["ops"]:
         k = None
         if tok is not None:
-            unh = tok[0] in "SFMU"
-            refl = True
-            canon = tok
-            if tok[0] == "f":
-                bits = int(tok[2:], 16)
-                if (bits >> 52) & 0x7ff == 0x7ff and bits & ((1 << 52) - 1):
-                    refl = False
-                elif bits in (0, 0x8000000000000000):
-                    canon = "f:0"
-            c = cls.setdefault(canon, len(cls))
-            k = Key(tok, c, reps.setdefault(tok, len(reps)), refl, unh, 1 if (obj["kind"] == "any" and not refl) else 0)
+            canon, refl, unh, spec = classify(obj["kind"], tok)
+            c = cls.setdefault(canon if refl else ("nan", tok), len(cls))
+            k = Key(tok, c, reps.setdefault(tok, len(reps)), refl, unh, spec)
         ops.append((n, k, v, s))
     return {"kind": obj["kind"], "profile": "corpus", "ops": ops, "hashkey": obj["hashkey"], "rand": obj["rand"]}
 
